@@ -205,7 +205,8 @@ pub fn parse_docs(attrs: &[Attribute]) -> Result<String> {
             Expr::Lit(ExprLit {
                 lit: Lit::Str(ref str),
                 ..
-            }) => Ok(str.value()),
+            // `*/` would end the generated comment
+            }) => Ok(str.value().replace("*/", "*\\/")),
             _ => syn_err!(attr.span(); "doc  with non literal expression found"),
         })
         .collect::<Result<Vec<_>>>()?;
